@@ -50,6 +50,8 @@ def expand(records):
         elif g == "math":
             for a in r["args"]:
                 add("math", r["fn"], ZERO, a)
+            for a in r.get("rnd", []):          # family Rnd: the function's own rounding thresholds (spec: RndArgs)
+                add("math", r["fn"], ZERO, a)
     return cases
 
 
@@ -78,7 +80,7 @@ def run(rep):
     cases = expand(res.records)
     if len(cases) < 5000:
         raise Machinery("enumeration produced only %d cases" % len(cases))
-    rep.spaces.append({"space": "formatting calls x double grid, property-name sites and literal spellings x double grid, parsers x numeric-string grammar, parseInt x radix, long digit strings x radix, Math x special values (TLC-enumerated)",
+    rep.spaces.append({"space": "formatting calls x double grid, property-name sites and literal spellings x double grid, parsers x numeric-string grammar, parseInt x radix, long digit strings x radix, Math x special values, rounding Math functions x threshold grid of their target format (TLC-enumerated)",
                        "cases": len(cases), "complete": True})
     # seeded random bit patterns: printing (implicit / toString / a few digit counts) judged by the same specification
     rnd = random.Random(rep.seed)
